@@ -124,6 +124,11 @@ def ofLocal (t : Int) (tz : Option Int) : Val :=
 def Val.localC (v : Val) : Int := dayNumC v.year v.month v.day * US + v.us
 def Val.instantC (v : Val) : Int := v.localC - (match v.tz with | none => 0 | some z => z * UM)
 
+/-- the instant under an implicit timezone of `itz` minutes (F&O 3.1 §9.2/§9.4: a value without timezone
+is compared using the implicit timezone of the dynamic context) -/
+def Val.instantI (itz : Int) (v : Val) : Int :=
+  (dayNumC v.year v.month v.day * US + v.us) - (match v.tz with | none => itz | some z => z) * UM
+
 /-! ### operations (F&O 3.1 §9) -/
 
 /-- `op:add-dayTimeDuration-to-dateTime`: same timezone, instant moved by `dur` -/
@@ -161,6 +166,11 @@ of the following day (XSD 1.1 §3.3.7.2) -/
 def ofFields (a m d h mi s us : Int) (tz : Option Int) : Val :=
   if h = 24 then ofLocal (dayNumC a m d * US + US) tz
   else ⟨a, m, d, ((h * 60 + mi) * 60 + s) * 1000000 + us, tz⟩
+
+/-- F&O §9.5: the components of the local value; the year in the lexical numbering of the XSD version -/
+def components (v11 : Bool) (v : Val) : List Int :=
+  [if v11 then lex11OfAstro v.year else lex10OfAstro v.year, v.month, v.day,
+   v.us / 3600000000, v.us / 60000000 % 60, v.us % 60000000]
 
 /-- order of durations (XSD 1.1 §3.3.6.2): `d1 op d2` holds iff `t + d1 op t + d2` for each of the four
 reference dateTimes 1696-09-01T00:00:00Z, 1697-02-01T00:00:00Z, 1903-03-01T00:00:00Z, 1903-07-01T00:00:00Z;
